@@ -767,6 +767,42 @@ impl Sim {
         }
     }
 
+    /// Ballast: a live list sized so that heap utilisation sits just below the production
+    /// collector's 75 % threshold; the session's own garbage then makes the production trigger
+    /// (every 8192 cycles, at a slice end, after an evaluation) really collect. Not a form of the
+    /// session: evaluated directly, before the first form.
+    pub fn add_ballast(&mut self, target: f64) -> usize {
+        let mut total = 0usize;
+        for round in 0..3 {
+            self.vm.verif_collect();
+            let cap = self.vm.verif_heap().capacity() as f64;
+            let used = self.vm.verif_heap().used_size() as f64;
+            let missing = target * cap - used;
+            if missing < 8.0 {
+                break;
+            }
+            let n = (missing / 2.0) as usize;
+            let text = format!(
+                "(define %ballast{} (let loop ((i 0) (acc '())) (if (< i {}) (loop (+ i 1) (cons i acc)) acc)))",
+                round, n
+            );
+            let saved = self.vm.verif_state().gc_mode;
+            self.vm.verif_state_mut().gc_mode = GcMode::Suppress;
+            let _ = self.vm.eval_text(&text);
+            self.vm.verif_state_mut().gc_mode = saved;
+            total += n;
+        }
+        self.vm.verif_collect();
+        {
+            let mut c = self.ctl.borrow_mut();
+            c.seen_collections = self.vm.verif_state().collections;
+            c.boundary = 0;
+        }
+        self.vm.verif_state_mut().instructions = 0;
+        self.vm.verif_state_mut().max_sp = 0;
+        total
+    }
+
     pub fn set_gc_mode(&mut self, mode: GcMode) {
         self.vm.verif_state_mut().gc_mode = mode;
     }
